@@ -272,6 +272,12 @@ func TestVerifC19(t *testing.T) {
 		return
 	}
 
+	if p := os.Getenv("VERIF_PART"); p == "" || p == "F" {
+		c19PartF(t, res)
+		if os.Getenv("VERIF_PART") == "F" {
+			return
+		}
+	}
 	item := 0
 	// ---- fine granularity: every lock acquisition of a request is a scheduling
 	// point (not only storage operations).  Two requests on a 1-use token, one
